@@ -780,6 +780,10 @@ async fn rewrite_files(
         }
 
         if options.defer_index_remap {
+            // The fragment reuse index records the ids of the new fragments, so they must be
+            // reserved now (as in the address style branch above) and not when the rewrite
+            // is committed.
+            reserve_fragment_ids(&dataset, new_fragments.iter_mut()).await?;
             let no_addrs = RoaringTreemap::new();
             let mut serialized_no_addrs = Vec::with_capacity(no_addrs.serialized_size());
             no_addrs.serialize_into(&mut serialized_no_addrs)?;
